@@ -5,6 +5,7 @@ import (
 	"time"
 
 	"github.com/apache/thrift/lib/go/thrift"
+	"github.com/nats-io/nats.go"
 )
 
 // C15: transport failure is detected, reported once and recoverable, repeatedly.
@@ -247,5 +248,88 @@ func VerifC15_RepeatedOutages() {
 			return
 		}
 	}
+	verifReach("end")
+}
+
+func init() {
+	verifHarnesses["VerifC15_ConcurrentOpen"] = VerifC15_ConcurrentOpen
+	verifHarnesses["VerifC15_NatsOutage"] = VerifC15_NatsOutage
+}
+
+// verifSlowDial is a pipe whose Open takes a while (a scheduling point inside the dial).
+type verifSlowDial struct {
+	*verifPipe
+	dialing int
+}
+
+func (p *verifSlowDial) Open() error {
+	if p.verifPipe.open {
+		return thrift.NewTTransportException(thrift.ALREADY_OPEN, "already open")
+	}
+	p.dialing++
+	verifYield("dialing")
+	return p.verifPipe.Open()
+}
+
+// Two goroutines call Open on one adapter transport at the same time (the
+// application and a monitor's reopen): exactly one opens the connection, the other
+// is told ALREADY_OPEN; one connection means one reader and one close notification.
+func VerifC15_ConcurrentOpen() {
+	base := newVerifPipe()
+	ft := NewAdapterTransport(&verifSlowDial{verifPipe: base}).(*fAdapterTransport)
+	res := make(chan error, 2)
+	for i := 0; i < 2; i++ {
+		go func() { res <- ft.Open() }()
+	}
+	e1, e2 := <-res, <-res
+	okCount, alreadyCount := 0, 0
+	for _, e := range []error{e1, e2} {
+		if e == nil {
+			okCount++
+		} else if verifIsTransportErr(e, TRANSPORT_EXCEPTION_ALREADY_OPEN) {
+			alreadyCount++
+		}
+	}
+	verifAssert(okCount == 1 && alreadyCount == 1, "of two simultaneous Open calls one succeeds and the other reports ALREADY_OPEN")
+	verifAssert(ft.IsOpen(), "the transport is open")
+	closed := ft.Closed()
+	base.hangUp(nil)
+	_, ok := <-closed
+	verifAssert(ok, "the end of the connection is published on the channel handed out after Open")
+	verifAssert(!ft.IsOpen(), "and the transport is closed")
+	verifAssert(verifIsTransportErr(ft.Close(), TRANSPORT_EXCEPTION_NOT_OPEN), "Close on a closed transport reports NOT_OPEN")
+	verifReach("end")
+}
+
+// NATS client transport across a connection outage: Close while NATS is reconnecting
+// really closes (unsubscribes, publishes the cause), so that after the outage the
+// transport is closed and can be opened again.
+func VerifC15_NatsOutage() {
+	b := newVerifBroker()
+	tr := NewFNatsTransport(&nats.Conn{}, "svc", "_INBOX.c").(*fNatsTransport)
+	verifAssert(tr.Open() == nil, "open")
+	closed := tr.Closed()
+	if verifParam() == 1 {
+		b.status = nats.RECONNECTING
+		verifReach("close-during-outage")
+	}
+	verifAssert(tr.Close() == nil, "Close")
+	b.status = nats.CONNECTED
+	select {
+	case cause, ok := <-closed:
+		verifAssert(ok && cause == nil, "a user Close publishes the nil cause")
+	default:
+		verifFail("Close returned without publishing the close cause")
+	}
+	verifAssert(!tr.IsOpen(), "the transport is closed once NATS is back")
+	live := 0
+	for _, s := range b.subs {
+		if !s.closed {
+			live++
+		}
+	}
+	verifAssert(live == 0, "the inbox subscription is gone")
+	verifAssert(tr.Open() == nil && tr.IsOpen(), "and the transport opens again")
+	verifAssert(tr.Close() == nil, "second Close")
 	verifReach("end")
 }
